@@ -427,7 +427,11 @@ func (p *Packer) Unpack(r io.Reader, dst string) error {
 
 		// Handle symlinks, directories, non-regular files
 		if info.IsSymlink() {
-			if ok, err := p.validSymlink(dst, header.Name, header.Linkname); ok {
+			// The link is created at info.Path, that is with any leading
+			// slash of the entry name dropped, so that is where its target
+			// has to be judged from.
+			linkName := strings.TrimLeft(header.Name, "/")
+			if ok, err := p.validSymlink(dst, linkName, header.Linkname); ok {
 				// Create the symlink.
 				if err = os.Symlink(header.Linkname, info.Path); err != nil {
 					return fmt.Errorf("failed creating symlink (%q -> %q): %w",
